@@ -9,7 +9,7 @@ from .. import core
 from ..core import SKIP
 
 ID = "C08"
-RULE = ("(v4: + global_intersect on 1-3 chromosomes, pileup bedGraph, value_hist, Geometry.sort/accessors, StreamedGeometry, extend; v3: every interval argument is byte-compared with a copy taken before the call; multi-call sequences on one object; "
+RULE = ("(v5: + genomes / chromosome columns with more than 256 contigs (257..700, thorough also 1000, 2000 and one with 65540) through every chromosome-aware entry point, rows on contigs 255, 256, 257, last; v4: + global_intersect on 1-3 chromosomes, pileup bedGraph, value_hist, Geometry.sort/accessors, StreamedGeometry, extend; v3: every interval argument is byte-compared with a copy taken before the call; multi-call sequences on one object; "
         "jaccard_all_vs_all with 3-5 sets) exhaustive: every multiset of <= 3 half-open intervals on contigs of size 1..S (quick S<=4, thorough S<=6) for "
         "pileup / event pileup / mask / merge (every distance 0..S) ; every pair of multisets of <= 2 intervals (quick S<=4, "
         "thorough S<=6) for count_overlap / intersect / unique_intersect / contingency / Jaccard / Forbes; sort: every list of "
@@ -261,6 +261,59 @@ def _rand_ivs(rng, size, n, disjoint=False):
     return out
 
 
+def _many_contig_cases(rng, big):
+    """genomes / chromosome lists with MORE THAN 256 entries (draft assemblies, alt contigs): every chromosome-aware entry
+    point with rows on contigs number 255, 256, 257, ..., the last one - the codes of the chromosome column no longer fit a
+    byte, so a result that is right in value on small genomes but narrower in kind shows as a wrong chromosome"""
+    for N in ([257, 300] + [rng.randrange(258, 700) for _ in range(6 if big else 1)] + ([1000, 2000] if big else [])):
+        for _rep in range(3 if big else 1):
+            sizes = [rng.choice([1, 2, 3, 5, 6]) for _ in range(N)]
+            hot = [h for h in (0, 1, 255, 256, 257, N - 1, N - 2) if h < N]
+            rows = []
+            for _ in range(rng.choice([4, 8, 14])):
+                c = rng.choice(hot + [rng.randrange(N), rng.randrange(256, N)])
+                s = rng.randrange(0, sizes[c])
+                rows.append((c, s, rng.randrange(s, sizes[c] + 1)))
+            rows.append((N - 1, 0, sizes[N - 1]))            # position 0 .. last base of the last contig
+            rows.append((256, 0, 1))
+            rng.shuffle(rows)
+            srt = sorted(rows)
+            ne = [r for r in srt if r[1] < r[2]]
+            common = {"chrom": [r[0] for r in rows], "chrom_sizes": sizes, "sizes": [sizes[r[0]] for r in rows]}
+            yield {"op": "geo_sort", "chrom_sizes": sizes, "recs": [list(r) for r in rows]}
+            yield dict(common, op="geo_clip", start=[r[1] - rng.choice([0, 1, 4]) for r in rows],
+                       stop=[r[2] + rng.choice([0, 1, 40]) for r in rows])
+            yield dict(common, op="geo_extend", start=[r[1] for r in rows], stop=[r[2] for r in rows],
+                       fwd=[rng.randrange(2) for _ in rows], len=rng.choice([0, 1, 3, 10]))
+            yield {"op": "geo_mask", "chrom_sizes": sizes, "rows": [list(r) for r in srt]}
+            yield {"op": "geo_pileup", "chrom_sizes": sizes, "rows": [list(r) for r in srt]}
+            yield {"op": "geo_seq", "chrom_sizes": sizes, "rows": [list(r) for r in ne], "ds": [0, 1, 3, 0]}
+            yield {"op": "streamed_merge", "chrom_sizes": sizes, "rows": [list(r) for r in ne], "d": rng.choice([0, 1, 2])}
+            c2 = {"chrom": [r[0] for r in srt], "chrom_sizes": sizes, "sizes": [sizes[r[0]] for r in srt]}
+            yield dict(c2, op="streamed_clip", start=[r[1] - rng.choice([0, 1]) for r in srt], stop=[r[2] + rng.choice([0, 1, 9]) for r in srt])
+            yield dict(c2, op="streamed_extend", start=[r[1] for r in srt], stop=[r[2] for r in srt],
+                       fwd=[rng.randrange(2) for _ in srt], len=rng.choice([0, 1, 3]))
+            # module-level functions on tables whose chromosome column has > 256 distinct names / codes
+            for path in ("plain", "enc", "order"):
+                yield {"op": "sort", "recs": [list(r) for r in rows], "path": path, "nnames": N}
+            def dj():
+                out = []
+                for c in sorted(set(rng.choice(hot + [rng.randrange(256, N)]) for _ in range(6))):
+                    out += [[c, a, b] for a, b in sorted(_rand_ivs(rng, sizes[c], rng.randrange(1, 3), True))]
+                return out
+            A, B = dj(), dj()
+            yield {"op": "global_intersect", "sizes": sizes, "a": A, "b": B}
+            chroms = [{"size": z, "a": [r[1:] for r in A if r[0] == c], "b": [r[1:] for r in B if r[0] == c]} for c, z in enumerate(sizes)]
+            for op in ("jaccard", "forbes", "geo_jaccard"):
+                yield {"op": op, "chroms": chroms}
+            yield {"op": "jaccard_matrix", "sizes": sizes, "sets": [A, B, sorted([list(r) for r in ne])]}
+    if big:     # past 2**16 contigs (one case: building the genome context is quadratic in the number of contigs)
+        N = 65540
+        sizes = [1 + (i % 3) for i in range(N)]
+        rows = [(N - 1, 0, sizes[N - 1]), (65536, 0, 1), (0, 0, 1), (256, 0, 1), (65535, 0, 1), (N - 2, 0, 1), (3, 0, 1)]
+        yield {"op": "geo_sort", "chrom_sizes": sizes, "recs": [list(r) for r in rows]}
+
+
 PAIR_OPS = ["count_overlap", "intersect", "unique_intersect", "contingency"]
 
 
@@ -402,6 +455,8 @@ def cases(tier, rng):
                 if 0 <= s <= e <= S:
                     for f in (0, 1):
                         yield {"op": "extend", "start": [s], "stop": [e], "sizes": [S], "fwd": [f], "len": L}
+    # 4b. more than 256 contigs
+    yield from _many_contig_cases(rng, big)
     # 5. random larger
     N = 1500 if big else 150
     for _ in range(N):
@@ -681,6 +736,8 @@ def _impl_raw(c):
         if op == "sort":
             recs, path = c["recs"], c["path"]
             names = HUMAN if path in ("human", "order") else PLAIN
+            if "nnames" in c:       # many distinct chromosome names; plain string order = index order
+                names = ["ctg%05d" % i for i in range(c["nnames"])]
             ch = [names[r[0]] for r in recs]
             st, sp = np.array([r[1] for r in recs], dtype=int), np.array([r[2] for r in recs], dtype=int)
             if path == "enc":
